@@ -66,7 +66,8 @@ fn is_fault_card(c: &Card) -> bool {
         CardBody::Function(n) => n == "nosuch777",
         CardBody::SetProperty(t) => lit(&t[1], MARK),
         CardBody::AppendTable(b) => lit(&b[1], MARK),
-        CardBody::ForEach(f) => lit(&f.iterable, MARK),
+        CardBody::ForEach(f) => lit(&f.iterable, MARK) || [&f.i, &f.k, &f.v].iter().any(|n| n.as_deref() == Some("")),
+        CardBody::Repeat(r) => r.i.as_deref() == Some(""),
         CardBody::SetVar(s) => s.name.is_empty(),
         _ => false,
     }
@@ -577,7 +578,7 @@ fn decode(bytes: &[u8]) -> Plan {
     let _family = c.chance(REC_SHARE);
     let _family2 = c.chance(MODS_SHARE);
     let chain_len = c.draw(5);
-    let fault = c.draw(13);
+    let fault = c.draw(15);
     let wrap_depth = c.draw(3);
     let nest_depth = c.draw(4);
     let use_sub = c.bool();
@@ -606,6 +607,17 @@ fn decode(bytes: &[u8]) -> Plan {
                 10 => Stmt::SetProp(int(1), int(MARK), Expr::Str("k".into())),
                 11 => Stmt::Append(int(1), int(MARK)),
                 12 => Stmt::ForEach { i: None, k: None, v: Some("fv".into()), iterable: int(MARK), body: Box::new(log_stmt(int(1))) },
+                // compile-time faults raised by the loop card itself: an invalid (empty) loop-variable name
+                13 => {
+                    let empty = || Some(String::new());
+                    let (i, k, v) = match c.draw(3) {
+                        0 => (empty(), None, Some("fv".to_string())),
+                        1 => (None, empty(), None),
+                        _ => (Some("fi".to_string()), None, empty()),
+                    };
+                    Stmt::ForEach { i, k, v, iterable: Expr::CreateTable, body: Box::new(Stmt::Composite(vec![log_stmt(int(1)), log_stmt(int(2))])) }
+                }
+                14 => Stmt::Repeat(int(2), Some(String::new()), Box::new(Stmt::Composite(vec![log_stmt(int(1))]))),
                 _ => {
                     let (f, _) = fault_expr(fault);
                     let e = wrap_expr(&mut c, f, wrap_depth);
@@ -632,6 +644,7 @@ fn decode(bytes: &[u8]) -> Plan {
     }
     let expect_kind = match fault {
         10 | 11 | 12 => Some("InvalidArgument".to_string()),
+        13 | 14 => None,
         f => fault_expr(f).1.map(|s| s.to_string()),
     };
     Plan {
@@ -749,7 +762,7 @@ impl Property for C15 {
         "C15"
     }
     fn rule(&self) -> &'static str {
-        "case = error-free filler program (generated) around ONE planted fault card: 13 fault kinds (missing native, failing native, table op / pop / row with bad index / property on a non-table, calling a non-function, &str-typed native given an int, set-property / append / for-each on a non-table, and the compile-time faults unresolvable call target / function value), placed in a random operand slot of 0-2 wrapper cards, in a statement of 8 shapes, nested 0-3 times under if / else / repeat / while / composite / a closure invoked on the spot, in the last of 0-4 chained script functions (static and dynamic calls, some in a submodule), always followed by more code. Oracle: the error kind is the planted one, trace[0] equals the planted card's index computed with an independent child-numbering table AND resolves through Module::get_card to the planted CardId, trace[1..] equals the call cards of the chain innermost->outermost incl. closure invocations (one extra final entry accepted as program entry); compile faults: loc resolves to the planted card. Second family (about 30% of the cases): main -> 0-2 plain functions -> a recursive cycle of 1 or 2 functions (with or without parameters / locals / pending operands at the call), with (a) one of the planted fault cards or a read of a never-set variable raised in the activation at depth 1..7, (b) unbounded recursion until the call stack or the value stack is exhausted, (c) unbounded recursion under an instruction budget of 20..620; the number n of active activations is read from a counter global; oracle: error kind as planted, trace[0] is the planted card (a/ the failing call card for call-stack exhaustion; any resolvable card for value-stack exhaustion and timeout), trace[1..] is exactly the n (or, where the fault can fall between the call and the counter, n or n+1) recursive call cards followed by the outer chain. non-trivial = chain length >= 1 or operand slot depth >= 1 or >= 2 active recursive activations; distinct by hash of the decoded plan"
+        "case = error-free filler program (generated) around ONE planted fault card: 13 fault kinds (missing native, failing native, table op / pop / row with bad index / property on a non-table, calling a non-function, &str-typed native given an int, set-property / append / for-each on a non-table, and the compile-time faults unresolvable call target / function value / empty loop-variable name of a for-each or repeat), placed in a random operand slot of 0-2 wrapper cards, in a statement of 8 shapes, nested 0-3 times under if / else / repeat / while / composite / a closure invoked on the spot, in the last of 0-4 chained script functions (static and dynamic calls, some in a submodule), always followed by more code. Oracle: the error kind is the planted one, trace[0] equals the planted card's index computed with an independent child-numbering table AND resolves through Module::get_card to the planted CardId, trace[1..] equals the call cards of the chain innermost->outermost incl. closure invocations (one extra final entry accepted as program entry); compile faults: loc resolves to the planted card. Second family (about 30% of the cases): main -> 0-2 plain functions -> a recursive cycle of 1 or 2 functions (with or without parameters / locals / pending operands at the call), with (a) one of the planted fault cards or a read of a never-set variable raised in the activation at depth 1..7, (b) unbounded recursion until the call stack or the value stack is exhausted, (c) unbounded recursion under an instruction budget of 20..620; the number n of active activations is read from a counter global; oracle: error kind as planted, trace[0] is the planted card (a/ the failing call card for call-stack exhaustion; any resolvable card for value-stack exhaustion and timeout), trace[1..] is exactly the n (or, where the fault can fall between the call and the counter, n or n+1) recursive call cards followed by the outer chain. non-trivial = chain length >= 1 or operand slot depth >= 1 or >= 2 active recursive activations; distinct by hash of the decoded plan"
     }
     fn assumptions(&self) -> Vec<String> {
         vec![
